@@ -413,7 +413,7 @@ def ripemd160(data: bytes) -> bytes:
         state = compress(*state, data[64 * b : 64 * (b + 1)])
     # Construct final blocks (with padding and size).
     pad = b"\x80" + b"\x00" * ((119 - len(data)) & 63)
-    fin = data[len(data) & ~63 :] + pad + struct.pack("<Q", 8 * len(data))
+    fin = bytes(data[len(data) & ~63 :]) + pad + struct.pack("<Q", 8 * len(data))
     # Process final blocks.
     for b in range(len(fin) >> 6):
         state = compress(*state, fin[64 * b : 64 * (b + 1)])
